@@ -24,6 +24,12 @@ static const void* DEL = (void*)1;
 static int live_list[LIVE_MAX];
 static int n_live_list = 0;
 
+static void compact_live_list(void) {
+    int w = 0;
+    for (int k = 0; k < n_live_list; ++k) { Ent* e = &tab[live_list[k]]; if (e->p && e->p != DEL && e->tracked) live_list[w++] = live_list[k]; }
+    n_live_list = w;
+}
+
 static unsigned h(void* p) { uintptr_t x = (uintptr_t)p; x ^= x >> 17; x *= 0x9E3779B97F4A7C15ull; return (unsigned)(x >> 40) & (TAB - 1); }
 static void put(void* p, size_t n) {
     if (!p) return;
@@ -38,7 +44,11 @@ static void put(void* p, size_t n) {
     }
     if (slot < 0) { n_overflow++; return; }
     tab[slot].p = p; tab[slot].n = n; tab[slot].tracked = scope > 0;
-    if (scope > 0) { n_tracked_live++; if (n_live_list < LIVE_MAX) live_list[n_live_list++] = slot; }
+    if (scope > 0) {
+        n_tracked_live++;
+        if (n_live_list >= LIVE_MAX) compact_live_list();      /* drop the slots of blocks freed since the last lookup */
+        if (n_live_list < LIVE_MAX) live_list[n_live_list++] = slot; else n_overflow++;
+    }
 }
 static Ent* find(void* p) {
     unsigned i = h(p);
@@ -92,9 +102,7 @@ uint64_t vk_mlog_overflow(void) { return n_overflow; }
 /* find the live tracked block containing [p, p+n): returns 1 and its base/size, 0 if none */
 int vk_mlog_containing(void* p, size_t n, void** base, size_t* size) {
     /* compact the list of tracked slots, then scan it */
-    int w = 0;
-    for (int k = 0; k < n_live_list; ++k) { Ent* e = &tab[live_list[k]]; if (e->p && e->p != DEL && e->tracked) live_list[w++] = live_list[k]; }
-    n_live_list = w;
+    compact_live_list();
     for (int k = 0; k < n_live_list; ++k) {
         Ent* e = &tab[live_list[k]];
         char* b = (char*)e->p;
